@@ -280,6 +280,37 @@ func nearMisses() []ParseCase {
 	rej(".** bounds", "$.**{-1}", "$.**{}", "$.**{1 to}", "$.**{to 1}", "$.**{1.5}", "$.**{a}", "$.**{1,2}", "$.**{1 to 2 to 3}", "$.**{$}", "$**", "$.**{", "$.**{+1}")
 	acc(".** bounds", "$.**", "$.**{1}", "$.**{1 to 2}", "$.**{last}", "$.**{1 to last}", "$.**{last to 1}", "$.**{0}")
 	rej("structure", "", " ", "$.", "$..a", "$[", "$[]", "$[1,]", "$[,1]", "$ ?", "$ ? ()", "$ ? (1)", "$ ? ($.a)", "$ ? (@.a)", "$ &&", "$ ==", "== 1", "$ == == 1", "1 +", "* 2", "$ ? (@ > 1", "$ ? @ > 1", "($", "$)", "$ $", "$ 1", "1 2", "lax", "strict", "lax strict $", "strict lax $", "lax lax $", "$ lax", "exists($ == 1)", "exists()", "exists $", "!$", "! $.a", "!($.a)", "$ is unknown", "($.a) is unknown", "($ == 1) is", "($ == 1) is known", "$ starts with 1", "$ starts with $.a", "$ starts $x", "$ with \"a\"", "$ like_regex 1", "$ like_regex $x", "$ like_regex \"a\" flag", "$ like_regex \"a\" flag i", "$ like_regex", "$.a.()", "$.abs(", "1.type()", "1.a", "$.1", "$.a[1 to]", "$[to 1]", "$[1 to 2 to 3]", "$.a b", "$.\"a\"\"b\"", "$ == 1 == 2", "$ < 1 < 2", "1 == 1 starts with \"a\"", "$ ? (@ == 1 == 2)", "($ == 1) + 1", "1 + ($ == 1)", "-($ == 1)", "$[$ == 1]", "true && false", "$.a && $.b", "1 && 2", "!true", "TRUE", "FALSE", "NULL", "True", "$ == TRUE", "$ == Null", "$x.", "$.$x", "$.a.$", "$$", "$.a$b", "$ ? (@ == 1))", "$.*.", "$.a[*", "$.a*]", "$ ? (@ == 1) (", "#", "$ # 1", "$ ; $", "$ = 1", "$ & $", "$ | $", "$ ~ 1", "$ ^ 1", "$ ! = 1", "$ < > 1", "$ > = 1", "$ = = 1", "$ & & $", "a", "a.b", ".a", "[0]", "$ . size ( ) ( )")
+	// every construct whose rejection is decided in a grammar action or by a lexer helper (the
+	// parser carries on after it), followed by everything that can follow a complete step:
+	// the error must survive whatever the parser does with the half-built node
+	actionErrors := []string{"$.decimal(1,2,3)", "$.decimal(1,2,3,4)", "$.a.decimal(- 1, 2, 3)", `$ like_regex "a" flag "z"`, `$ like_regex "(" `, `$ like_regex "a" flag "xq"x`,
+		"$.decimal(99999999999999999999999, 1, 1)", `"\u0000"`, `$."\ud83d"`, "$.decimal(1e99999, 2, 3)", "$.decimal(1, 2, 3).decimal(1, 2, 3)", "$.**{1_}", "$.time(1_)", "0x", "1e"}
+	// out-of-range literals may be accepted (as numerics) or rejected: never a panic, never both nil
+	actionOpen := []string{"$.**{99999999999999999999}", "$.**{1 to 99999999999999999999}", "$.time(99999999999999999999)", "99999999999999999999999999", "1e99999", "0x1FFFFFFFFFFFFFFFFF", "$[0x1FFFFFFFFFFFFFFFFF]", "$.a[1e99999]", "$.**{0x10 to 99999999999999999999}"}
+	continuations := []string{"", ".a", "[0]", "[*]", ".*", ".**", " ? (@ > 1)", ".size()", ".decimal(1,2,3)", " + 1", " == 1", " starts with \"a\"", " like_regex \"a\"", "[last]", ".a.b[1 to 2]", ".datetime()", ".keyvalue().key"}
+	for _, a := range actionErrors {
+		for _, c := range continuations {
+			rej("error recorded in an action, then the parse goes on", a+c, "("+a+")"+c, "$ ? (exists("+a+c+"))", "-("+a+")"+c, "$["+a+c+"]", "("+a+c+") is unknown", a+c+" && 1 == 1", "1 == 1 || "+a+c+" == 1")
+		}
+	}
+	for _, a := range actionOpen {
+		for _, c := range continuations {
+			neu("out-of-range literal, then the parse goes on", a+c, "("+a+")"+c, "$ ? (exists("+a+c+"))", "-("+a+")"+c, "$["+a+c+"]", "("+a+c+") is unknown")
+		}
+	}
+	// characters that are neither ASCII punctuation of the syntax nor identifier characters may
+	// not stand for anything outside a string: in particular the private-use code points whose
+	// values coincide with the generated parser's token numbers (57346 = U+E002 and up)
+	var odd []rune
+	for r := rune(0xE000); r <= 0xE040; r++ {
+		odd = append(odd, r)
+	}
+	odd = append(odd, 0xF8FF, 0xF0000, 0x10FFFD, 0x00A0, 0x2028, 0x2029, 0x3000, 0xFEFF, 0x00D7, 0x2212, 0x2260, 0x2264, 0xFF04, 0xFF20, 0x201C, 0x00AB, 0x20AC, 0xFFFD, 0xFFFE, 0x0085, 0x200B, 0x1F600)
+	for _, r := range odd {
+		x := string(r)
+		rej("a character that no token can start with", x, "$"+x, "$ "+x+" 1", "$["+x+"]", "$."+x, "$.a"+x, "$ ? (@ "+x+" 1)", x+"$", "$ "+x, "$.a "+x+" $.b", "("+x+")", "$.a["+x+" to 1]", "$ ? ("+x+")", "1 "+x+" 1", "$.**{"+x+"}", "$.abs"+x+"()", x+" "+x)
+		acc("any character inside a string, quoted key or comment", `"`+x+`"`, `$."`+x+`"`, `$"`+x+`"`, "$ /* "+x+" */")
+	}
 	// deep and long inputs: recursion depth and buffer handling (accepted, no panic, no hang)
 	deep := 20000
 	acc("deep or long input",
